@@ -1,22 +1,49 @@
 (* C08  Every variable occurrence is bound to the right binder.
-   The scoping discipline is the stack-of-names function `scope_spec` (Spec/ScopeSpec.v). The full
-   statement is C08_resolve_statement: on every syntactically accepted tree the mirror of
-   resolve_variables succeeds exactly when the specification does, with the same term. It is decided
-   by running the extracted specification against the implementation on generated programs (sibling
-   scopes re-using names, nested groups, perturbations that unbind or shadow a name); the universal
-   theorem for the mirror is not proved yet (named partial in DESIGN.md). The theorems below are closed
-   computations that pin what the specification says on the characteristic cases. *)
+   The scoping discipline is the stack-of-names function `scope_spec` (Spec/ScopeSpec.v). Proved for
+   every tree and every token list (Proofs/ScopeProofs.v): the mirror of resolve_variables - a
+   name->depth map with insert / overwrite / remove bookkeeping and an error counter - reports no
+   error exactly when the specification is defined, then builds exactly the specification's term
+   (same indices, same fresh holes) and leaves its map as it found it; hence the mirror of parse()
+   accepts a syntactically accepted tree only with the specification's term, and always when the
+   specification is defined and the definition-order check passes. That the mirror is parser.rs is
+   decided by the C08 stream (extracted specification and mirror against the implementation on
+   generated programs: sibling scopes re-using names, nested groups, perturbations that unbind or
+   shadow a name). The closed computations below pin what the specification says on the
+   characteristic cases. *)
 From Coq Require Import List ZArith NArith Bool.
 Import ListNotations.
-Require Import Gram.Model.Term Gram.Model.Token Gram.Model.Grammar Gram.Model.Parser Gram.Model.ParserPost Gram.Spec.ScopeSpec.
+Require Import Gram.Model.Term Gram.Model.Token Gram.Model.Grammar Gram.Model.Parser Gram.Model.ParserPost Gram.Spec.ScopeSpec Gram.Proofs.ScopeProofs.
 
-Definition C08_resolve_statement : Prop :=
-  forall toks tree, syntax_tree toks = Some tree ->
-    match fst (fst (parse_top toks true [])) with
-    | POk t _ => scope_spec tree = Some t
-    | PErr _ => True          (* scoping or definition-order errors *)
-    | _ => True
-    end.
+Theorem C08_resolve_is_scope_spec : forall r,
+  match scope_spec r with
+  | Some t => rerrs (snd (resolve (S (psize r)) r 0 [] s0)) = 0 /\ fst (fst (resolve (S (psize r)) r 0 [] s0)) = t
+  | None => 0 < rerrs (snd (resolve (S (psize r)) r 0 [] s0))
+  end.
+Proof. exact resolve_is_spec. Qed.
+Check C08_resolve_is_scope_spec : forall r,
+  match scope_spec r with
+  | Some t => rerrs (snd (resolve (S (psize r)) r 0 [] s0)) = 0 /\ fst (fst (resolve (S (psize r)) r 0 [] s0)) = t
+  | None => 0 < rerrs (snd (resolve (S (psize r)) r 0 [] s0))
+  end.
+Print Assumptions C08_resolve_is_scope_spec.
+
+Theorem C08_accepted_term_is_the_specified_one : forall toks tree t ns,
+  syntax_tree toks = Some tree -> fst (fst (parse_top toks true [])) = POk t ns ->
+  scope_spec tree = Some t /\ check_definitions t = CDOk 0.
+Proof. exact parse_top_scope_sound. Qed.
+Check C08_accepted_term_is_the_specified_one : forall toks tree t ns,
+  syntax_tree toks = Some tree -> fst (fst (parse_top toks true [])) = POk t ns ->
+  scope_spec tree = Some t /\ check_definitions t = CDOk 0.
+Print Assumptions C08_accepted_term_is_the_specified_one.
+
+Theorem C08_specified_programs_are_accepted : forall toks tree t,
+  syntax_tree toks = Some tree -> scope_spec tree = Some t -> check_definitions t = CDOk 0 ->
+  exists ns, fst (fst (parse_top toks true [])) = POk t ns.
+Proof. exact parse_top_scope_complete. Qed.
+Check C08_specified_programs_are_accepted : forall toks tree t,
+  syntax_tree toks = Some tree -> scope_spec tree = Some t -> check_definitions t = CDOk 0 ->
+  exists ns, fst (fst (parse_top toks true [])) = POk t ns.
+Print Assumptions C08_specified_programs_are_accepted.
 
 Definition T (k : tkind) : ptok := {| pk := k; ps := 0; pe := 0; pname := []; pz := 0 |}.
 Definition I (c : N) : ptok := {| pk := KIdentifier; ps := 0; pe := 0; pname := [c]; pz := 0 |}.
